@@ -116,8 +116,13 @@ fn_names_that_contradict_windowed_situation = set()
 fn_names_that_contradict_ordered_windowed_situation = {
     "count",
     "max",
+    "mean",
+    "median",
     "min",
+    "nunique",
     "prod",
+    "size",
+    "_size",
     "sum",
     "std",
     "var",
